@@ -211,20 +211,11 @@ R1_COMMON = [
     (r'\bstd::memcpy\b', 'memcpy', 0, INF),
     (r'\bJSONCONS_UNREACHABLE\s*\(\s*\)', '__CPROVER_assert(0, "[C05] JSONCONS_UNREACHABLE reached")', 0, INF),
     (r'\bJSONCONS_ASSERT\s*\(', 'VX_JSONCONS_ASSERT(', 0, INF),
-    (r'\(std::numeric_limits<\s*uint64_t\s*>::max\)\(\)', 'UINT64_MAX', 0, INF),
-    (r'\(std::numeric_limits<\s*int64_t\s*>::max\)\(\)', 'INT64_MAX', 0, INF),
-    (r'\(std::numeric_limits<\s*int64_t\s*>::min\)\(\)', 'INT64_MIN', 0, INF),
-    (r'std::numeric_limits<\s*int64_t\s*>::lowest\(\)', 'INT64_MIN', 0, INF),
-    (r'\(std::numeric_limits<\s*uint32_t\s*>::max\)\(\)', 'UINT32_MAX', 0, INF),
-    (r'\(std::numeric_limits<\s*int32_t\s*>::max\)\(\)', 'INT32_MAX', 0, INF),
-    (r'\(std::numeric_limits<\s*int32_t\s*>::min\)\(\)', 'INT32_MIN', 0, INF),
-    (r'\(std::numeric_limits<\s*uint16_t\s*>::max\)\(\)', 'UINT16_MAX', 0, INF),
-    (r'\(std::numeric_limits<\s*int16_t\s*>::max\)\(\)', 'INT16_MAX', 0, INF),
-    (r'\(std::numeric_limits<\s*int16_t\s*>::min\)\(\)', 'INT16_MIN', 0, INF),
-    (r'\(std::numeric_limits<\s*uint8_t\s*>::max\)\(\)', 'UINT8_MAX', 0, INF),
-    (r'\(std::numeric_limits<\s*int8_t\s*>::max\)\(\)', 'INT8_MAX', 0, INF),
-    (r'\(std::numeric_limits<\s*int8_t\s*>::min\)\(\)', 'INT8_MIN', 0, INF),
-    (r'\(std::numeric_limits<\s*size_t\s*>::max\)\(\)', 'SIZE_MAX', 0, INF),
+    (r'\(?std::numeric_limits<\s*(u?)int(8|16|32|64)_t\s*>::(max|min|lowest)\)?\(\)',
+     lambda m: ('UINT%s_MAX' % m.group(2) if m.group(3) == 'max' else '0') if m.group(1) else ('INT%s_MAX' % m.group(2) if m.group(3) == 'max' else 'INT%s_MIN' % m.group(2)), 0, INF),
+    (r'\(std::numeric_limits<\s*(std::)?size_t\s*>::max\)\(\)', 'SIZE_MAX', 0, INF),
+    (r'\(std::numeric_limits<\s*int\s*>::max\)\(\)', 'INT_MAX', 0, INF),
+    (r'\(std::numeric_limits<\s*int\s*>::min\)\(\)', 'INT_MIN', 0, INF),
     (r'\(std::min\)\(', 'VX_MIN(', 0, INF),
     (r'\(std::max\)\(', 'VX_MAX(', 0, INF),
 ]
